@@ -660,6 +660,8 @@ def reg_assumptions(reg, results):
         if c.note:
             out.append([f'{d["name"]}: {c.note}'])
         for q in d.get('used', []):
+            if q.startswith('<skipped-at-call>'):
+                continue
             if q.startswith('<lemma>'):
                 out.append([f'TRUSTED mathematical lemma used by the evaluator in {d["name"]}: '
                             f'{q[8:]}'])
